@@ -53,7 +53,7 @@ pub struct RunRes {
     pub executions: u64,
 }
 
-const HANG_MS: u64 = 5000;
+const HANG_MS: u64 = 3000;
 
 fn run_inst(scratch: &str, tag: &str, batch: &str, inst: &Inst, skip: &BTreeSet<usize>) -> Result<Vec<Option<String>>, usize> {
     // steps whose call is in `skip` are left out of the job and reported as None
@@ -113,7 +113,51 @@ fn run_inst(scratch: &str, tag: &str, batch: &str, inst: &Inst, skip: &BTreeSet<
     Ok(res)
 }
 
+/// Calibration: execute every call once, in small chunks spread over fresh processes, to find
+/// the calls that hang or kill their process (C02's business) before the real instances meet
+/// them 24 times over.  Returns the set of calls to leave out.
+pub fn calibrate(scratch: &str, scn: &Scenario, workers: usize) -> BTreeSet<usize> {
+    let batch = format!("{scratch}/batch-calib.json");
+    std::fs::write(&batch, serde_json::to_string(&scn.calls).unwrap()).unwrap_or_else(|e| harness_error(&format!("write batch: {e}")));
+    let n = scn.calls.len();
+    let chunk = 400usize;
+    let nchunks = (n + chunk - 1) / chunk;
+    let res = par_map(nchunks, workers, |c| {
+        let lo = c * chunk;
+        let hi = ((c + 1) * chunk).min(n);
+        let inst = Inst { detrand: prng::mix(0xca11b ^ c as u64) | 1, threads: 1, steps: (lo..hi).map(|i| Step { call: i, thread: 0, v: "base".into(), p: vec![] }).collect() };
+        let mut skip: BTreeSet<usize> = BTreeSet::new();
+        for _ in 0..50 {
+            match run_inst(scratch, &format!("calib{c}"), &batch, &inst, &skip) {
+                Ok(_) => break,
+                Err(call) => {
+                    if call == usize::MAX || !skip.insert(call) {
+                        break;
+                    }
+                }
+            }
+        }
+        skip
+    });
+    let _ = std::fs::remove_file(&batch);
+    let out: BTreeSet<usize> = res.into_iter().flatten().collect();
+    if std::env::var("VERIF_DEBUG").is_ok() {
+        for c in &out {
+            eprintln!("DEBUG calibration excludes call {c}: {:?}", scn.calls.get(*c));
+        }
+    }
+    out
+}
+
+pub fn run_scenario_skipping(scratch: &str, scn: &Scenario, workers: usize, pre_skip: &BTreeSet<usize>) -> RunRes {
+    run_scenario_inner(scratch, scn, workers, pre_skip.clone())
+}
+
 pub fn run_scenario(scratch: &str, scn: &Scenario, workers: usize) -> RunRes {
+    run_scenario_inner(scratch, scn, workers, BTreeSet::new())
+}
+
+fn run_scenario_inner(scratch: &str, scn: &Scenario, workers: usize, pre_skip: BTreeSet<usize>) -> RunRes {
     let batch = format!("{scratch}/batch-{:016x}.json", {
         let mut f = Fnv::new();
         f.u64(scn.calls.len() as u64);
@@ -121,7 +165,7 @@ pub fn run_scenario(scratch: &str, scn: &Scenario, workers: usize) -> RunRes {
         f.0
     });
     std::fs::write(&batch, serde_json::to_string(&scn.calls).unwrap()).unwrap_or_else(|e| harness_error(&format!("write batch: {e}")));
-    let mut skip: BTreeSet<usize> = BTreeSet::new();
+    let mut skip: BTreeSet<usize> = pre_skip;
     let mut outcomes: Vec<Option<Vec<Option<String>>>> = vec![None; scn.insts.len()];
     for _round in 0..40 {
         let todo: Vec<usize> = (0..scn.insts.len()).filter(|&i| outcomes[i].is_none()).collect();
@@ -142,6 +186,9 @@ pub fn run_scenario(scratch: &str, scn: &Scenario, workers: usize) -> RunRes {
                     }
                     if skip.insert(call) {
                         new_skip = true;
+                        if std::env::var("VERIF_DEBUG").is_ok() {
+                            eprintln!("DEBUG instance {} hung/crashed in call {}: {:?}", todo[k], call, scn.calls.get(call));
+                        }
                     }
                 }
             }
@@ -833,7 +880,8 @@ pub fn main_c01(tier_name: &str, seed: u64) -> i32 {
             }
             *probes.entry("first_call_of_process").or_default() += 1;
         }
-        let rr = run_scenario(&scratch.path, &scn, workers);
+        let pre_skip = calibrate(&scratch.path, &scn, workers);
+        let rr = run_scenario_skipping(&scratch.path, &scn, workers, &pre_skip);
         executions += rr.executions;
         hung_total += rr.hung_calls.len() as u64;
 
